@@ -1,3 +1,4 @@
+import TxdbusModel.Base.ExceptEq
 import TxdbusModel.Proofs.Client.LifecycleLost
 import TxdbusModel.Proofs.Client.LifecycleWalk
 /-!
@@ -125,6 +126,31 @@ theorem lost_fails_everything_once (eps : List Endpoint) (h : List Ev)
   · intro later hl
     exact lost_quiet_run later _ (lost3_basic s).1 (lost3_timers s hr) hl
 
+/-! ## Table facts (the table is regenerated from txdbus/endpoints.py on every run) -/
+
+/-- The transports the parser knows, in the code's order, and: every transport that can yield an
+endpoint (kind unix or tcp) strips exactly its own prefix; only nonce-tcp sets a flag. -/
+theorem endpoint_prefix_table :
+    Txdbus.Gen.C09Endpoints.prefixTable.map (fun r => (r.1, r.2.1)) =
+      [(['u','n','i','x',':'], ['u','n','i','x']), (['t','c','p',':'], ['t','c','p']),
+       (['n','o','n','c','e','-','t','c','p',':'], ['t','c','p']),
+       (['l','a','u','n','c','h','d',':'], ['l','a','u','n','c','h','d'])] ∧
+    (∀ r ∈ Txdbus.Gen.C09Endpoints.prefixTable,
+      (r.2.1 = Txdbus.Gen.C09Endpoints.unixKind ∨ r.2.1 = Txdbus.Gen.C09Endpoints.tcpKind) → r.2.2.1 = r.1.length) ∧
+    Txdbus.Gen.C09Endpoints.prefixTable.filterMap (fun r => r.2.2.2) = [['n','o','n','c','e','-','t','c','p']] ∧
+    (Txdbus.Gen.C09Endpoints.entrySep, Txdbus.Gen.C09Endpoints.componentSep, Txdbus.Gen.C09Endpoints.keyValueSep) =
+      (';', ',', '=') := by decide
+
+/-- A three-entry list of the three kinds parses to its entries, in listed order. -/
+theorem endpoints_example :
+    getDBusEndpoints { session := none, system := none, pid := ['7'] }
+      "unix:path=/a;tcp:host=h,port=12;nonce-tcp:host=g,port=3,noncefile=/n".toList =
+    .ok [ { target := .unix "/a".toList, args := [("path".toList, .str "/a".toList)] },
+          { target := .tcp "h".toList 12, args := [("host".toList, .str "h".toList), ("port".toList, .str "12".toList)] },
+          { target := .tcp "g".toList 3,
+            args := [("nonce-tcp".toList, .true), ("host".toList, .str "g".toList), ("port".toList, .str "3".toList),
+                     ("noncefile".toList, .str "/n".toList)] } ] := by decide
+
 /-! ## The hypotheses are satisfiable; the theorems say something on concrete histories -/
 
 def exEp : Endpoint := { target := .tcp ['h'] 1, args := [] }
@@ -195,6 +221,8 @@ theorem prefix_model_violates_self_unregister :
 #print axioms connect_fires_once
 #print axioms first_reachable_in_order
 #print axioms lost_fails_everything_once
+#print axioms endpoint_prefix_table
+#print axioms endpoints_example
 #print axioms prefix_model_violates_connect_fires
 #print axioms prefix_model_violates_connect_fires_other
 #print axioms prefix_model_violates_lost_dict_changed_size
